@@ -35,11 +35,18 @@ class Taint:
     def _objs_tainted(self, f, v):
         return any(o in self.to for o in self.pts.of(f, v))
 
-    def _taint_objs(self, f, ptr, inst):
+    def _obj_size(self, o):
+        if o[0] == 'alloca': return self.P.defined[o[1]].insts[o[2]].d['alloc_size']
+        if o[0] == 'byval': return self.P.defined[o[1]].params[o[2]].get('byval')
+        return None
+
+    def _taint_objs(self, f, ptr, inst, min_size=None):
         ch = False
         for o in self.pts.of(f, ptr):
             if o[0] in ('func',):
                 continue
+            if min_size is not None and self._obj_size(o) is not None and self._obj_size(o) < min_size:
+                continue      # (points-to is field-insensitive for structs of pointers: an object too small for the output is not its target)
             if o[0] == 'global' and self.P.globals.get(o[1], {}).get('constant'):
                 continue
             self.taint_insts.setdefault(o, set()).add((f.name, inst.id))
@@ -125,11 +132,12 @@ class Taint:
                                 if self._taint_objs(f, i.ops[0], i): changed = True
                             elif d == 'pbkdf2_sha256':
                                 if any(self._objs_tainted(f, i.ops[k]) or self._vt(f, i.ops[k]) for k in (0, 2)):
-                                    if self._taint_objs(f, i.ops[5], i): changed = True
+                                    klen = i.ops[6]['v'] if len(i.ops) > 6 and i.ops[6]['k'] == 'c' else None
+                                    if self._taint_objs(f, i.ops[5], i, min_size=klen): changed = True
                             elif d in ('u8_nfc', 'u8_nfkd'):
                                 if self._objs_tainted(f, i.ops[0]) or self._vt(f, i.ops[0]):
                                     if self._taint_objs(f, i.ops[1], i): changed = True
-                                    if dst not in self.tv: self.tv.add(dst); changed = True
+                                    # (the returned length is not secret material in the sense of C16: not tainted)
                         elif t[0] == 'indirect':
                             for o in self.pts.of(f, t[1]):
                                 if o[0] == 'func' and o[1] in P.defined:
@@ -147,12 +155,21 @@ class Taint:
                         if any(self._vt(f, v) for v in i.ops) and dst not in self.tv:
                             self.tv.add(dst); changed = True
 
+    def _has_array(self, ty, depth=0):
+        """struct type (transitively) containing an array member: a buffer. Structs of scalars / pointers passed around by value are treated like
+        scalar locals (the compiler scalarises them; they hold at most a few words, not a copy of the phrase, mask or index vector)"""
+        if '[' in ty and ' x ' in ty: return True
+        if ty.startswith('%') and depth < 4:
+            st = self.P.structs.get(ty[1:].rstrip('*'))
+            if st: return any(self._has_array(fl['ty'], depth + 1) for fl in st['fields'])
+        return False
+
     def secret_locals(self):
         """aggregate allocas (arrays / structs) that may receive tainted data: [(function, alloca inst)]"""
         out = []
         for o in sorted(self.to):
             if o[0] == 'alloca':
                 f = self.P.defined[o[1]]; a = f.insts[o[2]]
-                if a.d['alloc_kind'] in ('array', 'struct'):
+                if a.d['alloc_kind'] == 'array' or (a.d['alloc_kind'] == 'struct' and self._has_array(a.d['alloc_ty'])):
                     out.append((f, a))
         return out
